@@ -65,7 +65,11 @@ def main(tier):
         for j, ban in enumerate(bans):
             banned = [("200" if k == "HTTP-response-code" else k) for k in ban]
             cid = "q%d_%d" % (n, j)
-            cases.append({"id": cid, "files": ff, "root": "main.jst", "banned": banned})
+            if len(banned) >= 2 and n % 2 == 0:
+                # the same set given as two separate options
+                cases.append({"id": cid, "files": ff, "root": "main.jst", "banned": banned[1:], "banned2": banned[:1]})
+            else:
+                cases.append({"id": cid, "files": ff, "root": "main.jst", "banned": banned})
             meta[cid] = ("p%d" % n, ban, used, form, text, files, spans, m)
     obs = harness("run", cases)
     hit = 0
